@@ -70,6 +70,7 @@ const (
 	kpNoWaitBurst
 	kpAckDelayedPastCall
 	kpBigErrorAck
+	kpAckMistyped
 	nKProbes
 )
 
@@ -82,7 +83,7 @@ var kProbeNames = []string{"unsolicited_record_skipped_inside_call", "eagain_x9_
 	"receive_non_netlink_address", "short_after_long_datagram", "send_payload_8970", "send_with_caller_pid", "porcupine_histories_checked",
 	"sendto_failed", "kernel_immutable", "receive_foreign_port_id_with_group_mask", "receive_foreign_port_id_2^31_or_more", "getstatus_result_checked_again_at_end", "receive_on_two_independent_clients_in_tasks", "forged_reply_queued_ahead_of_the_kernels", "ack_datagram_truncated", "setters_on_two_clients_in_two_tasks", "socket_close_reported_an_error", "receive_failed_with_enobufs_inside_call", "sequence_counter_started_next_to_wrap",
 	"verdict_left_unread_by_a_failed_call", "status_reply_ahead_of_its_ack", "send_payload_with_spare_capacity", "send_same_payload_slice_again",
-	"receive_datagram_whose_length_field_differs_from_its_size", "more_than_16_nowait_requests_outstanding", "ack_delayed_past_a_whole_waitforpendingacks_call", "error_ack_echoing_a_request_of_8900_bytes_or_more"}
+	"receive_datagram_whose_length_field_differs_from_its_size", "more_than_16_nowait_requests_outstanding", "ack_delayed_past_a_whole_waitforpendingacks_call", "error_ack_echoing_a_request_of_8900_bytes_or_more", "refusal_with_a_netlink_type_other_than_error"}
 
 var kFaultNames = []string{"injected_errno", "unsolicited_records", "stale_reply", "delayed_reply", "truncated_or_padded_reply", "spoofed_datagram",
 	"recv_eintr", "recv_eagain_injected", "recv_eagain_natural", "sendto_errno", "concurrent_close_tasks", "concurrent_send_tasks"}
@@ -195,7 +196,7 @@ func ExecKPlan(p *KPlan, trace bool) *core.Result {
 		}
 		k.Faults = fs
 	}
-	if p.SeqStart != 0 && p.Scenario != 18 {
+	if p.SeqStart != 0 && (p.Scenario != 18 || c.realNL != nil) {
 		k.ExemptSeq0 = true
 		if c.realNL != nil {
 			setRealSeq(c.realNL, p.SeqStart)
@@ -469,6 +470,12 @@ func (c *kctx) execOp(i int, op KOp) {
 			relaxed = true
 			c.res.Probes[kpAckTruncated]++
 		}
+		if r.AckMistyped {
+			// the refusal did not come as an NLMSG_ERROR: the call cannot identify
+			// the errno, it must not report success
+			relaxed = true
+			c.res.Probes[kpAckMistyped]++
+		}
 		if r.DataFirst {
 			// the reply overtook the ACK (outside the property's quantifier): the
 			// call may fail, it must not hand out anything but the kernel's data
@@ -741,6 +748,10 @@ func (c *kctx) judgeWire(i int, op KOp, reqs []*kern.Request, st *libaudit.Audit
 		c.viol("get-type", name, "GetStatus sent message type %d, AUDIT_GET is %d", r.Type, kern.AuditGet)
 		return
 	}
+	if r.Malformed != "" {
+		c.viol("malformed-request", name, "%s: %s (datagram of %d bytes)", name, r.Malformed, len(r.Wire))
+		return
+	}
 	if r.Verdict != 0 || r.StatusSent == nil {
 		return
 	}
@@ -911,10 +922,12 @@ func (c *kctx) execWaitAcks(i int, auto bool) {
 	// expected: the pending prefix up to and including the first failing ACK
 	var expect []int
 	wantErrno := 0
+	mistyped := false
 	for _, idx := range c.pending {
 		expect = append(expect, idx)
 		if v := k.Ledger[idx].Verdict; v != 0 {
 			wantErrno = v
+			mistyped = k.Ledger[idx].AckMistyped
 			break
 		}
 	}
@@ -954,6 +967,9 @@ func (c *kctx) execWaitAcks(i int, auto bool) {
 		if wantErrno != 0 {
 			if err == nil {
 				c.viol("waitacks-swallowed", "WaitForPendingACKs", "WaitForPendingACKs returned nil although request #%d was acknowledged with errno %d", expect[len(expect)-1], wantErrno)
+			} else if mistyped {
+				// the refusal did not come as an NLMSG_ERROR: an error, whichever, is all that can be asked
+				c.res.Probes[kpAckMistyped]++
 			} else if ok, why := identifies(err, wantErrno, "WaitForPendingACKs"); !ok {
 				c.viol("waitacks-errno", "WaitForPendingACKs", "WaitForPendingACKs: first kernel error is errno %d but %s", wantErrno, why)
 			}
@@ -1360,16 +1376,18 @@ func (c *kctx) concurrentPhase(gb *gateBox) {
 		if overlap {
 			c.res.Probes[kpSendConcurrentOverlap]++
 		}
-		base := uint32(0)
+		base := c.p.SeqStart
 		if len(c.sentSeqs) > 0 {
 			base = c.sentSeqs[len(c.sentSeqs)-1]
 		}
+		// a counter: every call returns a number after the one returned by the
+		// call linearised before it (increasing as a uint32 that rolls over)
 		model := porcupine.Model{
 			Init: func() interface{} { return base },
 			Step: func(state, input, output interface{}) (bool, interface{}) {
 				s := state.(uint32)
 				o := output.(uint32)
-				return o == s+1, o
+				return int32(o-s) > 0, o
 			},
 		}
 		if len(ops) > 0 && len(ops) <= 40 {
@@ -1483,7 +1501,7 @@ func (c *kctx) execSendRaw(i int, op KOp) {
 		c.viol("panic", "Send", "Send panicked: %s", panicked)
 		return
 	}
-	if len(c.sentSeqs) > 0 && seq <= c.sentSeqs[len(c.sentSeqs)-1] {
+	if len(c.sentSeqs) > 0 && int32(seq-c.sentSeqs[len(c.sentSeqs)-1]) <= 0 {
 		c.viol("send-seq-not-increasing", "Send", "Send returned sequence %d after %d", seq, c.sentSeqs[len(c.sentSeqs)-1])
 	}
 	c.sentSeqs = append(c.sentSeqs, seq)
@@ -1563,6 +1581,12 @@ func (c *kctx) execRecvRaw(i int, op KOp) {
 			c.res.Probes[kpRecvLenField]++
 		}
 		putU16(data[4:], uint16(1300+i))
+		switch (op.C >> 23) & 3 {
+		case 2:
+			putU16(data[4:], uint16(op.C>>8)%8) // the netlink control types and their neighbours (NOOP, ERROR, DONE, OVERRUN, ...)
+		case 3:
+			putU16(data[4:], uint16(op.C>>9)) // any type
+		}
 		putU32(data[8:], 0)
 	}
 	var fromPid uint32
